@@ -381,10 +381,81 @@ def work_churn(chunk: list) -> list:
 
 # ---- (b) decoders ---------------------------------------------------------------------------------------------------
 
+def _decoder_cases(spec, seed: int, thorough: bool):  # noqa: ANN001, ANN202
+    """(descs) instances of one class: its small representatives plus boundary instances (bounded)."""
+    out = list(spec.representatives())
+    cap = 120 if thorough else 30
+    for descs in spec.instances(d=1, cap=cap, seed=seed):
+        if descs not in out:
+            out.append(descs)
+        if len(out) >= cap:
+            break
+    return out
+
+
+_DEC_THOROUGH = False
+_DEC_SEED = 0
+
+
 def work_decoders(chunk: list) -> list:
-    """chunk items: class names; uses the C02 enumerator + reference codec if present."""
-    from . import c02  # noqa: PLC0415
-    return c02.c03_truncation_check(chunk)
+    """
+    chunk items: ClassSpec keys.  For every bounded instance: every proper prefix of its encoding and every
+    single-byte substitution in {0, 1, orig+1, 0xff} of its first 48 bytes is handed to unpack_serializable.
+    Accepting is fine only if the reported end lies inside the buffer and the reference codec does not find a
+    length-prefixed part (or fixed-width field) running past the end of the buffer.
+    """
+    from ..ref import c02_domain as dom  # noqa: PLC0415
+    from ..ref import c02_wire as wire  # noqa: PLC0415
+    ser = dom.serializer()
+    res = []
+    for key in chunk:
+        spec = dom.spec_by_key(key)
+        out = {"key": key, "evaluations": 0, "accepted": 0, "rejected": 0, "violations": []}
+        seen_keys = set()
+        for descs in _decoder_cases(spec, _DEC_SEED, _DEC_THOROUGH):
+            try:
+                obj = spec.build(descs)
+                enc = ser.pack_serializable(obj)
+            except Exception:  # noqa: BLE001, S112
+                continue
+            if len(enc) > 600:
+                continue
+            variants = [("prefix", enc[:k]) for k in range(len(enc))]
+            for pos in range(min(len(enc), 48)):
+                for v in {0, 1, (enc[pos] + 1) & 0xFF, 0xFF} - {enc[pos]}:
+                    variants.append(("subst", enc[:pos] + bytes([v]) + enc[pos + 1:]))
+            for kind, data in variants:
+                out["evaluations"] += 1
+                try:
+                    value, end = ser.unpack_serializable(spec.cls, data)
+                except Exception:  # noqa: BLE001
+                    out["rejected"] += 1
+                    continue
+                out["accepted"] += 1
+                why = None
+                if end > len(data):
+                    why = f"reported end {end} lies beyond the {len(data)}-byte buffer"
+                elif "arrayH" in repr(spec.ref_format_list):
+                    # the arrayH-* formats are written in host byte order (known finding under C02): the big-endian
+                    # reference reads another count from the same bytes, so only the end-inside-buffer test applies
+                    pass
+                else:
+                    try:
+                        wire.decode_payload(spec.ref_format_list, data, 0)
+                    except wire.WireError as e:
+                        if str(e).startswith("truncated"):
+                            why = f"accepted although {e}"
+                    except Exception:  # noqa: BLE001, S110
+                        pass
+                if why:
+                    vkey = f"decoder-accepts-truncated:{spec.name}:{kind}"
+                    if vkey not in seen_keys:
+                        seen_keys.add(vkey)
+                        out["violations"].append((vkey, f"{spec.name}: unpack_serializable on {data.hex()[:80]} "
+                                                  f"({len(data)} bytes, {kind} of a valid encoding) {why}",
+                                                  {"decoder": True, "class": key, "data": data.hex()}))
+        res.append(out)
+    return res
 
 
 def run(ctx: core.Ctx) -> core.Report:
@@ -421,20 +492,21 @@ def run(ctx: core.Ctx) -> core.Report:
     for _, viol in churn:
         for key, (what, rp) in viol.items():
             violations.append(core.Violation(key, what, rp))
-    dec = {"evaluations": 0, "classes": 0, "note": "decoder part unavailable"}
-    try:
-        from . import c02  # noqa: PLC0415
-        if hasattr(c02, "c03_truncation_check"):
-            names = c02.c03_class_names()
-            parts = core.pmap(work_decoders, names, ctx.jobs, chunk=4)
-            dec = {"evaluations": sum(p["evaluations"] for p in parts), "classes": len(names),
-                   "accepted_within_buffer": sum(p["accepted"] for p in parts),
-                   "rejected": sum(p["rejected"] for p in parts)}
-            for p in parts:
-                for key, what, rp in p["violations"]:
-                    violations.append(core.Violation(key, what, rp))
-    except ImportError:
-        pass
+    global _DEC_THOROUGH, _DEC_SEED
+    _DEC_THOROUGH, _DEC_SEED = ctx.thorough, seed
+    from ..ref import c02_domain as dom  # noqa: PLC0415
+    specs = dom.enumerate_classes(include_synthetic=True)
+    parts = core.pmap(work_decoders, [sp.key for sp in specs], ctx.jobs, chunk=4)
+    dec = {"evaluations": sum(p["evaluations"] for p in parts), "classes": len(specs),
+           "accepted_within_buffer": sum(p["accepted"] for p in parts), "rejected": sum(p["rejected"] for p in parts)}
+    fold: dict = {}
+    for p_ in parts:
+        for key, what, rp in p_["violations"]:
+            fold.setdefault(key, (what, rp))
+    # one defect in a shared packer shows up in every class that uses it: report at most a handful of keys
+    for key, (what, rp) in sorted(fold.items())[:12]:
+        violations.append(core.Violation(key, what, rp))
+    dec["violating_classes"] = len({k.split(":")[1] for k in fold})
     total = evals + n_cells + n_snap + dec["evaluations"] + n_churn
     cov = {
         "evaluations": total,
@@ -482,6 +554,20 @@ def replay(ctx: core.Ctx, data) -> list:  # noqa: ANN001
         finally:
             h.close()
     if data.get("decoder"):
-        from . import c02  # noqa: PLC0415
-        return c02.c03_replay(data)
+        from ..ref import c02_domain as dom  # noqa: PLC0415
+        from ..ref import c02_wire as wire  # noqa: PLC0415
+        spec = dom.spec_by_key(data["class"])
+        raw = bytes.fromhex(data["data"])
+        try:
+            _, end = dom.serializer().unpack_serializable(spec.cls, raw)
+        except Exception:  # noqa: BLE001
+            return []
+        if end > len(raw):
+            return [core.Violation(f"decoder-accepts-truncated:{spec.name}", f"end {end} > {len(raw)}")]
+        try:
+            wire.decode_payload(spec.ref_format_list, raw, 0)
+        except wire.WireError as e:
+            if str(e).startswith("truncated"):
+                return [core.Violation(f"decoder-accepts-truncated:{spec.name}", str(e))]
+        return []
     return []
